@@ -29,6 +29,7 @@ import (
 	"strconv"
 	"strings"
 	"sync"
+	"sync/atomic"
 	"testing"
 	"testing/synctest"
 	"time"
@@ -94,6 +95,8 @@ type vConn struct {
 	nwrites int
 	pending []*vWrite
 	written []*vWrite // writes that returned ok, in order
+	// slowProgress: a progress notification spends this long (virtual time) inside Write (a slow peer / transport)
+	slowProgress time.Duration
 }
 
 var errVerifBroken = errors.New("verif: broken pipe")
@@ -190,6 +193,15 @@ func (c *vConn) Write(ctx context.Context, msg jsonrpc.Message) error {
 		}
 	}
 	c.log.emit("wr.begin", "w", w.n, "kind", kind, "id", id, "method", method, "cref", cref, "rerr", errClass, "ref", ref)
+	if c.slowProgress > 0 && kind == "notif" && method == "notifications/progress" && outcome == "ok" {
+		select {
+		case <-time.After(c.slowProgress):
+		case <-c.closed:
+			outcome = "broken"
+		case <-ctx.Done():
+			outcome = "ctxdone"
+		}
+	}
 	if outcome == "" {
 		select {
 		case outcome = <-w.decide:
@@ -285,6 +297,8 @@ type vScenario struct {
 	Side   string          `json:"side"` // client | server
 	Gated  bool            `json:"gated"`
 	Faults map[string]string `json:"faults"` // auto mode: write number (after the handshake) -> outcome
+	// SlowProgressMs: every progress notification spends that long (virtual ms) inside the transport's Write
+	SlowProgressMs int `json:"slowprogress,omitempty"`
 	Steps  [][]any         `json:"steps"`
 	// CS: critical-section level scheduling. Every call of jsonrpc2.Connection.updateInFlight waits at a gate
 	// (verif hook VerifEnter); the harness decides, seeded, which waiting critical section runs next and when the
@@ -394,6 +408,8 @@ type vRun struct {
 	answered map[string]bool
 	nextReq int64
 	hbase int // number of writes performed by the handshake
+	stopLoops atomic.Bool // clean-up stage: persistent senders (notifyloop) stop
+	cmd map[string]chan string // request tag -> nested-call commands for its handler (hcall)
 }
 
 func (r *vRun) gate(tag string) chan struct{} {
@@ -415,19 +431,63 @@ func (r *vRun) gate(tag string) chan struct{} {
 // scripted handler body shared by all incoming requests
 func (r *vRun) handle(ctx context.Context, tag, method string) error {
 	r.log.emit("h.start", "r", tag, "method", method)
-	select {
-	case <-r.gate(tag):
-		r.log.emit("h.end", "r", tag, "outcome", "ok")
-		return nil
-	case <-ctx.Done():
-		cause := ""
-		if c := context.Cause(ctx); c != nil {
-			cause = c.Error()
+	for {
+		select {
+		case <-r.gate(tag):
+			r.log.emit("h.end", "r", tag, "outcome", "ok")
+			return nil
+		case <-ctx.Done():
+			cause := ""
+			if c := context.Cause(ctx); c != nil {
+				cause = c.Error()
+			}
+			r.log.emit("h.ctxdone", "r", tag, "cause", cause)
+			r.log.emit("h.end", "r", tag, "outcome", "ctx")
+			return ctx.Err()
+		case k := <-r.cmdCh(tag):
+			// `hcall`: the handler calls the peer itself, with its own context, and waits for the answer - unless
+			// it is told to return (`hret`) or its request is cancelled first: then it abandons the nested call
+			r.log.emit("h.call", "r", tag, "k", k)
+			st := r.newCall(ctx, k)
+			go r.doCall(st, k)
+			abandon := func() {
+				r.log.emit("ctx.cancel", "k", k)
+				st.cancel()
+				<-st.done
+			}
+			select {
+			case <-st.done:
+			case <-r.gate(tag):
+				abandon()
+				r.log.emit("h.end", "r", tag, "outcome", "ok")
+				return nil
+			case <-ctx.Done():
+				cause := ""
+				if c := context.Cause(ctx); c != nil {
+					cause = c.Error()
+				}
+				r.log.emit("h.ctxdone", "r", tag, "cause", cause)
+				abandon()
+				r.log.emit("h.end", "r", tag, "outcome", "ctx")
+				return ctx.Err()
+			}
 		}
-		r.log.emit("h.ctxdone", "r", tag, "cause", cause)
-		r.log.emit("h.end", "r", tag, "outcome", "ctx")
-		return ctx.Err()
 	}
+}
+
+// cmdCh is the channel on which the script tells the handler of request tag to make a nested call.
+func (r *vRun) cmdCh(tag string) chan string {
+	r.mu.Lock()
+	defer r.mu.Unlock()
+	if r.cmd == nil {
+		r.cmd = map[string]chan string{}
+	}
+	ch, ok := r.cmd[tag]
+	if !ok {
+		ch = make(chan string)
+		r.cmd[tag] = ch
+	}
+	return ch
 }
 
 func vText(tag string) *CallToolResult {
@@ -565,6 +625,7 @@ func (r *vRun) setup(ctx context.Context) error {
 	r.conn.mu.Lock()
 	r.hbase = r.conn.nwrites
 	r.conn.gated = r.sc.Gated
+	r.conn.slowProgress = time.Duration(r.sc.SlowProgressMs) * time.Millisecond
 	for k, v := range r.sc.Faults {
 		n, _ := strconv.Atoi(k)
 		r.conn.faults[r.hbase+n] = v
@@ -591,48 +652,58 @@ func vErrKind(err error) (string, int64) {
 }
 
 func (r *vRun) startCall(k string) {
-	ctx, cancel := context.WithCancel(context.Background())
+	st := r.newCall(context.Background(), k)
+	go r.doCall(st, k)
+}
+
+// newCall registers call k; its context carries the values of parent (for a call made from inside a handler:
+// whatever the SDK put into the handler's context) but is cancelled only by the script's `cancel` step.
+func (r *vRun) newCall(parent context.Context, k string) *vCallState {
+	ctx, cancel := context.WithCancel(context.WithoutCancel(parent))
 	st := &vCallState{ctx: ctx, cancel: cancel, done: make(chan struct{})}
 	r.mu.Lock()
 	r.calls[k] = st
 	r.mu.Unlock()
 	r.log.emit("call.begin", "k", k)
-	go func() {
-		defer close(st.done)
-		defer func() {
-			if p := recover(); p != nil {
-				r.log.emit("panic", "msg", fmt.Sprint(p), "where", "call "+k)
-			}
-		}()
-		var tag string
-		var err error
-		if r.cs != nil {
-			var res *CallToolResult
-			res, err = r.cs.CallTool(ctx, &CallToolParams{Name: "peer", Arguments: map[string]any{"k": k}})
-			if err == nil && len(res.Content) > 0 {
-				if tc, ok := res.Content[0].(*TextContent); ok {
-					tag = tc.Text
-				}
-			}
-		} else {
-			var res *ListRootsResult
-			res, err = r.ss.ListRoots(ctx, &ListRootsParams{Meta: Meta{"k": k}})
-			if err == nil && len(res.Roots) > 0 {
-				tag = strings.TrimPrefix(res.Roots[0].URI, "file:///")
-			}
+	return st
+}
+
+func (r *vRun) doCall(st *vCallState, k string) {
+	ctx := st.ctx
+	defer close(st.done)
+	defer func() {
+		if p := recover(); p != nil {
+			r.log.emit("panic", "msg", fmt.Sprint(p), "where", "call "+k)
 		}
-		kind, code := vErrKind(err)
-		es := ""
-		if err != nil {
-			es = err.Error()
-		}
-		if kind == "wireerror" {
-			var we *jsonrpc.Error
-			errors.As(err, &we)
-			tag = we.Message
-		}
-		r.log.emit("call.end", "k", k, "kind", kind, "code", code, "tag", tag, "err", es)
 	}()
+	var tag string
+	var err error
+	if r.cs != nil {
+		var res *CallToolResult
+		res, err = r.cs.CallTool(ctx, &CallToolParams{Name: "peer", Arguments: map[string]any{"k": k}})
+		if err == nil && len(res.Content) > 0 {
+			if tc, ok := res.Content[0].(*TextContent); ok {
+				tag = tc.Text
+			}
+		}
+	} else {
+		var res *ListRootsResult
+		res, err = r.ss.ListRoots(ctx, &ListRootsParams{Meta: Meta{"k": k}})
+		if err == nil && len(res.Roots) > 0 {
+			tag = strings.TrimPrefix(res.Roots[0].URI, "file:///")
+		}
+	}
+	kind, code := vErrKind(err)
+	es := ""
+	if err != nil {
+		es = err.Error()
+	}
+	if kind == "wireerror" {
+		var we *jsonrpc.Error
+		errors.As(err, &we)
+		tag = we.Message
+	}
+	r.log.emit("call.end", "k", k, "kind", kind, "code", code, "tag", tag, "err", es)
 }
 
 // wireIDOf finds the JSON-RPC id under which call k went (or tried to go) to the transport.
@@ -872,6 +943,39 @@ func (r *vRun) step(st []any) {
 			}
 			r.log.emit("notify.end", "n", n, "err", err != nil)
 		}()
+	case "hcall":
+		// the running handler of request arg(1) makes call arg(2) to the peer with the handler's own context
+		select {
+		case r.cmdCh(arg(1)) <- arg(2):
+		default:
+			applied = false // no handler of that request is waiting for instructions
+		}
+	case "notifyloop":
+		// a persistent sender: an application goroutine that keeps sending progress notifications, one after the
+		// other, until one fails (that is how it learns that the session is gone) or the scenario is cleaned up
+		n := arg(1)
+		off, _ := strconv.Atoi(arg(2))
+		r.log.emit("notifyloop.begin", "n", n)
+		go func() {
+			time.Sleep(time.Duration(off) * time.Millisecond)
+			i := 0
+			for ; i < 400 && !r.stopLoops.Load(); i++ {
+				name := fmt.Sprintf("%s.%d", n, i)
+				r.log.emit("notify.begin", "n", name)
+				var err error
+				p := &ProgressNotificationParams{ProgressToken: "tok", Progress: float64(i), Message: name}
+				if r.cs != nil {
+					err = r.cs.NotifyProgress(context.Background(), p)
+				} else {
+					err = r.ss.NotifyProgress(context.Background(), p)
+				}
+				r.log.emit("notify.end", "n", name, "err", err != nil)
+				if err != nil {
+					break
+				}
+			}
+			r.log.emit("notifyloop.end", "n", n, "iters", i)
+		}()
 	case "cs":
 		// directed mode: release the longest-waiting critical section entered from the named function
 		want := "(*Connection)." + arg(1)
@@ -1058,6 +1162,7 @@ func (r *vRun) run() {
 	r.log.emit("quiesce1", "blockedCalls", blocked, "sessions", r.sessionListed())
 	// drain stage 2: clean-up so that the bubble can exit
 	r.log.emit("cleanup")
+	r.stopLoops.Store(true)
 	r.mu.Lock()
 	for _, cs := range r.calls {
 		cs.cancel()
@@ -1157,7 +1262,15 @@ func vRandomScenario(rnd *rand.Rand, i int) *vScenario {
 			sc.Steps = append(sc.Steps, []any{"listen", fmt.Sprintf("L%d", listens)})
 			continue
 		}
-		switch k := rnd.IntN(26); {
+		switch k := rnd.IntN(27); {
+		case k == 26:
+			// a running handler calls the peer itself (nested call with the handler's context)
+			if len(liveReqs) > 0 && calls < 3 {
+				calls++
+				c := fmt.Sprintf("k%d", calls)
+				liveCalls = append(liveCalls, c)
+				sc.Steps = append(sc.Steps, []any{"hcall", liveReqs[rnd.IntN(len(liveReqs))], c})
+			}
 		case k < 4 && calls < 3:
 			calls++
 			c := fmt.Sprintf("k%d", calls)
@@ -1214,6 +1327,14 @@ func vRandomScenario(rnd *rand.Rand, i int) *vScenario {
 				sc.Steps = append(sc.Steps, []any{"wret", "any", "ok"})
 			}
 		}
+	}
+	// persistent senders: in one of twelve auto-mode scenarios two application goroutines keep sending progress
+	// notifications through a slow transport, from some point of the script until they are refused
+	if !sc.Gated && !sc.CS && rnd.IntN(12) == 0 {
+		sc.SlowProgressMs = 2000
+		at := rnd.IntN(len(sc.Steps) + 1)
+		loops := [][]any{{"notifyloop", "pa", "0"}, {"notifyloop", "pb", "1000"}}
+		sc.Steps = append(sc.Steps[:at:at], append(loops, sc.Steps[at:]...)...)
 	}
 	return sc
 }
